@@ -2433,7 +2433,11 @@ class Component(System):
                     deriv['cols'] = subjacs_info['cols']
 
                     if 'uncovered_nz' in subjacs_info:
-                        deriv['uncovered_nz'] = subjacs_info['uncovered_nz']
+                        # with a list of steps, keep what every step found
+                        uncovered = deriv.setdefault('uncovered_nz', [])
+                        for entry in subjacs_info['uncovered_nz']:
+                            if entry not in uncovered:
+                                uncovered.append(entry)
                         deriv['uncovered_threshold'] = subjacs_info['uncovered_threshold']
 
                     if _wrt in local_opts and local_opts[_wrt]['directional']:
